@@ -78,6 +78,14 @@ def run(ck):
         for e in fn.calls(lambda e: e.base_callee() in ("std::vector::push_back", "std::vector::emplace_back", "std::vector::insert", "std::vector::resize")
                           and (e.get("callee") or "").startswith("std::vector<std::shared_ptr<Pistache::Http::Experimental::Connection>>::")):
             grows.append((fn, e))
+    # (or through an inserter handed to a counted algorithm: std::generate_n(std::back_inserter(v), n, make))
+    CONNVEC = re.compile(r"vector<std::shared_ptr<(Pistache::Http::Experimental::)?Connection>")
+    for fn in prog.funcs.values():
+        if not fn.file.endswith("client.cc") and not fn.file.endswith("client.h"):
+            continue
+        for e in fn.calls(lambda e: e.base_callee() in ("std::generate_n", "std::fill_n", "std::generate", "std::copy", "std::copy_n", "std::transform") and
+                          any("insert_iterator<" in (a.get("ty") or "") and CONNVEC.search(a.get("ty") or "") for a in (e.get("args") or []))):
+            grows.append((fn, e))
     ck.require(grows, "creation of pooled connections not found")
     # growth written in a private helper that only pickConnection reaches is judged in the flattened view of pickConnection
     grows = [(fn, e) for fn, e in grows if fn.base == POOL + "pickConnection" or not lib.only_reached_from(prog, fn, {POOL + "pickConnection"})]
@@ -102,6 +110,11 @@ def run(ck):
                     if t_ and t_.get("k") in ("for", "while", "do") and t_.get("cmp") and \
                             (MAXF in (t_.get("refs") or []) or any(("v:" + v_) in (t_.get("refs") or []) for v_ in from_max)):
                         loops.append(g.blocks[bid_])
+            if not loops and e.base_callee() in ("std::generate_n", "std::fill_n"):
+                # a counted algorithm writing through an inserter: its count is the configured pool size
+                cnt = (e.get("args") or [{}, {}])[1]
+                if strip_tmpl(cnt.get("f") or "") == POOL + "maxConnectionsPerHost" or cnt.get("v") in from_max:
+                    loops.append(g.blocks[e.block])
             ins = [x for x in g.calls(lambda x: x.base_callee() in ("std::unordered_map::insert", "std::unordered_map::emplace", "std::unordered_map::try_emplace")
                                       and strip_tmpl((x.get("recv") or {}).get("f") or "") == POOL + "conns")]
             ok = bool(loops) and bool(ins) and lib.holds(ls.get((ins[0].block, ins[0].idx)), POOL + "connsLock", "this") \
